@@ -301,3 +301,33 @@ def fuse_generators(fn: ast.FunctionDef, module, index):
 
     fn.body = rewrite(fn.body)
     return ast.fix_missing_locations(fn)
+
+
+# ------------------------------------------------------------------------------------------ a, b = (E1, E2)  ->  a = E1; b = E2
+def split_tuple_assigns(fn: ast.FunctionDef):
+    """Tuple assignments from a tuple display are written as one assignment per target when no right-hand side reads a target
+    assigned before it in the same statement (then the sequential reading is the simultaneous one)."""
+    fn = copy.deepcopy(fn)
+
+    def rewrite(stmts):
+        out = []
+        for st in stmts:
+            for fld in ("body", "orelse", "finalbody"):
+                blk = getattr(st, fld, None)
+                if isinstance(blk, list) and blk and isinstance(blk[0], ast.stmt):
+                    setattr(st, fld, rewrite(blk))
+            if isinstance(st, ast.Assign) and len(st.targets) == 1 and isinstance(st.targets[0], ast.Tuple) and isinstance(st.value, ast.Tuple) \
+                    and len(st.targets[0].elts) == len(st.value.elts) and all(isinstance(t, ast.Name) for t in st.targets[0].elts):
+                names = [t.id for t in st.targets[0].elts]
+                safe = all(not ({n.id for n in ast.walk(v) if isinstance(n, ast.Name)} & set(names[:i])) for i, v in enumerate(st.value.elts))
+                if safe:
+                    for t, v in zip(st.targets[0].elts, st.value.elts):
+                        if isinstance(v, ast.Name) and v.id == t.id:
+                            continue  # x = x
+                        out.append(ast.copy_location(ast.Assign(targets=[t], value=v), st))
+                    continue
+            out.append(st)
+        return out
+
+    fn.body = rewrite(fn.body)
+    return ast.fix_missing_locations(fn)
